@@ -15,3 +15,35 @@ c_g2c = contract(GM + "geocentric2cart", prop="C07", params=dict(r="real", lat="
                           "result[1] == r * cos(lat * %s) * sin(lon * %s)" % (RADS, RADS),
                           "result[2] == r * sin(lat * %s)" % RADS])
 c_g2c.domain = {"r": (1.0, 7e6), "lat": (-90.0, 90.0), "lon": (-180.0, 180.0)}
+
+
+# ---- named trusted analytic axioms (A6) that need explicit instances
+import z3 as _z3
+from pyvc.sym import UF as _UF, PI as _PI
+
+
+@lemma_axiom("sin_injective_principal")
+def _sin_inj(u, v):
+    """sin is injective on [-pi/2, pi/2]"""
+    s = _UF["sin"]
+    return _z3.Implies(_z3.And(u >= -_PI / 2, u <= _PI / 2, v >= -_PI / 2, v <= _PI / 2, s(u) == s(v)), u == v)
+
+
+@lemma_axiom("angle_unique")
+def _angle_unique(u, v):
+    """an angle in (-pi, pi] is determined by its sine and cosine"""
+    s, c = _UF["sin"], _UF["cos"]
+    return _z3.Implies(_z3.And(u > -_PI, u <= _PI, v > -_PI, v <= _PI, s(u) == s(v), c(u) == c(v)), u == v)
+
+
+@lemma_axiom("cos_add")
+def _cos_add(u, v):
+    s, c = _UF["sin"], _UF["cos"]
+    return _z3.And(c(u + v) == c(u) * c(v) - s(u) * s(v), c(u - v) == c(u) * c(v) + s(u) * s(v))
+
+
+@lemma_axiom("half_angle")
+def _half_angle(u):
+    """sin^2(u/2) == (1 - cos u)/2"""
+    s, c = _UF["sin"], _UF["cos"]
+    return s(u / 2) * s(u / 2) == (1 - c(u)) / 2
